@@ -9,6 +9,13 @@ _DISK_RULE = (
 )
 
 PROPS = {
+    "C03": dict(engine="disk", level="exploration", quick=3000, thorough=150000, rule=_DISK_RULE,
+                expected_probes=["vhdx.sb_entries_interleaved", "vhdx.sector_4096", "vhdx.blocks_out_of_order",
+                                 "vhdx.read_starts_midblock_crosses_block", "vhdx.state_2", "vhdx.state_6"],
+                assumptions=["VHDX layout per [MS-VHDX]; stub anchored on tests/data/dynamic.vhdx (CRC-32C of header and region table reproduced)"]),
+    "C04": dict(engine="disk", level="exploration", quick=5000, thorough=300000, rule=_DISK_RULE,
+                expected_probes=["vhd.footer_511", "vhd.fixed", "vhd.size_not_multiple_of_block", "vhd.blocks_out_of_order"],
+                assumptions=["VHD layout per the Microsoft VHD specification 1.0; stub anchored on tests/data/dynamic.vhd"]),
     "C05": dict(engine="disk", level="exploration", quick=6000, thorough=300000, rule=_DISK_RULE,
                 expected_probes=["vdi.multi_block_request_permuted", "vdi.zero_block", "vdi.unallocated_block"],
                 assumptions=["VDI layout per VirtualBox VDICore.h (no fixture in the repo)"]),
@@ -31,6 +38,8 @@ _DISK_NOTE = ("trusted base: the writer stub's reading of the format, the refere
 _DISK_TECH = "deterministic simulation (stub writer peer + simulated storage + reference model oracle), seeded search, ddmin replay"
 
 MANIFEST_TEXT = {
+    "C03": dict(text=_DISK_TEXT, design_ref="DESIGN.md 4/C03", note=_DISK_NOTE, technique=_DISK_TECH),
+    "C04": dict(text=_DISK_TEXT, design_ref="DESIGN.md 4/C04", note=_DISK_NOTE, technique=_DISK_TECH),
     "C05": dict(text=_DISK_TEXT, design_ref="DESIGN.md 4/C05", note=_DISK_NOTE, technique=_DISK_TECH),
     "C06": dict(text=_DISK_TEXT, design_ref="DESIGN.md 4/C06", note=_DISK_NOTE, technique=_DISK_TECH),
 }
